@@ -621,6 +621,14 @@ impl EventContext {
     }
 }
 
+/// Verification hooks: re-export private helpers to the out-of-tree native replay harness
+#[cfg(feature = "verif-hooks")]
+pub mod verif_hooks {
+    pub fn to_ts_identifier(name: &str) -> String {
+        super::to_ts_identifier(name)
+    }
+}
+
 #[cfg(test)]
 mod tests {
     use GenerateConfig;
